@@ -663,11 +663,14 @@ func c06StoreSide(c *fw.Ctx, rng *fw.RNG, blk c06Block) {
 		}
 	}
 	// ... and a node whose scalar accessors (values and map keys) fail as well, after every k accesses
-	for k := 0; k < 400; k++ {
+	// (each position twice: failing from there on, and failing exactly once — an encoder that swallows one error
+	// trips over the next unless the next access succeeds again)
+	for k2 := 0; k2 < 800; k2++ {
+		k := k2 / 2
 		committed = 0
 		w = &countingFailWriter{failAt: 1 << 30}
 		var serr error
-		flt := &fnode.Fault{After: k, Scalars: true}
+		flt := &fnode.Fault{After: k, Scalars: true, Once: k2%2 == 1}
 		if c.Guard("C06:Store", func() { _, serr = lsys.Store(linking.LinkContext{}, lp, fnode.NewFaulty(val, flt)) }) {
 			continue
 		}
